@@ -186,6 +186,9 @@ class Evaluator:
         if op in ('<', '>', '<=', '>=') and a[0] == 'text' and b[0] == 'text' \
                 and not rs.text_order_certain(pa, pb):
             return UNKNOWN
+        if op == '&' and any(
+                isinstance(x, float) and x and not 1e-9 <= abs(x) < 1e15 for x in (pa, pb)):
+            return UNKNOWN      # rendering of such numbers is C02's clause (open finding)
         acc = rs.accept(op, pa, pb)
         if acc is None or len(acc) != 1:
             return UNKNOWN
